@@ -282,6 +282,42 @@ fn c14_seq(rng: &mut Rng, name: &'static str) -> Prepared {
     p
 }
 
+/// C14 under memory pressure: the worker takes the sketch's read lock (estimates for eviction) while
+/// the consumer applies batches.
+fn c14_seq_pressure(rng: &mut Rng, name: &'static str) -> Prepared {
+    let mut p = seq_prepare(rng, "C14", name, "C14P", (25, 120));
+    let mut cfg = seq_cfg(rng);
+    cfg.keys = rng.range(3, 6) as u32;
+    cfg.weight_fn = WeightFn::PerKey(vec![1; cfg.keys as usize]);
+    cfg.weight = rng.range_i(1, (cfg.keys as i64 - 1).max(1));
+    cfg.pool = *rng.pick(&[1usize, 1, 2]);
+    cfg.buffer = *rng.pick(&[1usize, 1, 2]);
+    cfg.counters = *rng.pick(&[7u64, 16, 17, 64, 100]);
+    rebuild_with_cfg(&mut p, cfg);
+    if rng.chance(1, 2) {
+        p.scenario.sched.stalls.push(Stall { role: RoleName::Consumer, from: rng.below(200), until: rng.range(300, 3000) });
+    }
+    p
+}
+
+/// C17 under concurrency: the hostile mix of C18 with many TTL keys, sweeps and evictions, so that
+/// a panic needing two background threads on one entry is reachable.
+fn c17_conc(rng: &mut Rng, name: &'static str) -> Prepared {
+    let mut p = ConcParams::base();
+    p.threads = (2, 4);
+    p.ops = (4, 12);
+    p.keys = (2, 5);
+    p.ttl_pct = 70;
+    p.pressure = Pressure::Over;
+    p.extra_sweeps = true;
+    p.observer = true;
+    p.valueless_pct = 20;
+    p.mix = [34, 22, 10, 26, 4, 1, 2, 1];
+    let mut sc = conc(rng, "C17", name, &p);
+    sc.cfg.shards = 2;
+    prep(sc)
+}
+
 fn c17_edge(rng: &mut Rng, name: &'static str) -> Prepared {
     let mut p = seq_prepare(rng, "C17", name, "C17", (4, 30));
     let cfg = edge_cfg(rng, !is_open("D8"));
@@ -546,6 +582,13 @@ fn focus_for(name: &str) -> (Focus, Own) {
             f.mirror = true;
             own_c14
         }
+        "C14P" => {
+            f.property = "C14";
+            f.mix = [30, 2, 6, 60, 0, 1, 0, 1];
+            f.ttl_pct = 0;
+            f.mirror = true;
+            own_c14
+        }
         "C07" => {
             f.property = "C07";
             f.mix = [40, 8, 10, 18, 14, 5, 3, 2];
@@ -651,13 +694,15 @@ fn owners_params(rng: &mut Rng, ttl_pct: u64) -> ConcParams {
 fn c03_conc(rng: &mut Rng, name: &'static str) -> Prepared {
     let mut p = owners_params(rng, 35);
     p.bare_ttl_pct = 20;
+    p.fits_slack = *rng.pick(&[0i64, 3, 30]);
     prep(conc(rng, "C03", name, &p))
 }
 
 fn c03_conc_sweeps(rng: &mut Rng, name: &'static str) -> Prepared {
     let mut p = owners_params(rng, 80);
-    p.bare_ttl_pct = 30;
+    p.bare_ttl_pct = 40;
     p.extra_sweeps = true;
+    p.fits_slack = *rng.pick(&[0i64, 3, 30]);
     p.mix = [24, 28, 8, 36, 0, 0, 0, 4];
     prep(conc(rng, "C03", name, &p))
 }
@@ -1021,10 +1066,10 @@ pub fn plan(property: &str) -> Vec<Stratum> {
         "C11" => vec![Stratum { name: "conc-bursts", share: 10, gen: c11_conc }],
         "C12" => vec![Stratum { name: "conc-passive", share: 5, gen: c12_conc }, Stratum { name: "ack-manual-polls", share: 5, gen: c12_ack }],
         "C13" => vec![Stratum { name: "conc-chaos", share: 10, gen: c13_conc }],
-        "C14" => vec![Stratum { name: "seq-sketch-mirror", share: 10, gen: c14_seq }],
+        "C14" => vec![Stratum { name: "seq-sketch-mirror", share: 7, gen: c14_seq }, Stratum { name: "seq-sketch-mirror-pressure", share: 3, gen: c14_seq_pressure }],
         "C15" => vec![Stratum { name: "pipe", share: 10, gen: c15_pipe }],
         "C16" => vec![Stratum { name: "seq-model", share: 6, gen: c16_seq }, Stratum { name: "conc-quiescent", share: 4, gen: c16_conc }],
-        "C17" => vec![Stratum { name: "seq-edge", share: 10, gen: c17_edge }],
+        "C17" => vec![Stratum { name: "seq-edge", share: 7, gen: c17_edge }, Stratum { name: "conc-hostile-ttl", share: 3, gen: c17_conc }],
         "C18" => vec![Stratum { name: "conc-hostile", share: 10, gen: c18_conc }],
         "ALL" => vec![Stratum { name: "seq-all", share: 10, gen: all_seq }],
         _ => vec![],
@@ -1100,6 +1145,10 @@ pub fn judge(property: &str, sc: &Scenario, out: &RunOutput, _rec: &SchedRecord)
         "C13" => oracle::c13(sc, &hx, &mut v),
         "C15" => oracle::c15(sc, &hx, _rec, &out.chans, &mut v),
         "C16" if conc => oracle::quiescent_accounting(&hx, "C16", &mut v),
+        "C17" if conc => {
+            v.nontrivial = hx.hooks.iter().any(|h| matches!(h.2, crate::hist::Hook::SweepExpired { .. }))
+                && hx.hooks.iter().any(|h| matches!(h.2, crate::hist::Hook::Evicted { .. }));
+        }
         "C18" => {
             v.nontrivial = out.chans.iter().any(|c| c.send_blocked > 0)
                 || hx.hooks.iter().any(|h| matches!(h.2, crate::hist::Hook::SweepExpired { .. } | crate::hist::Hook::Evicted { .. }));
